@@ -575,8 +575,13 @@ def csv_lines(O, hist, dup, variant, sep, header=None):
 
 def replay_convert(ctx, rec, k, report):
     """One conversion of Convert.tla on the real code, with list edges and with tuple edges."""
-    _replay_convert(ctx, rec, k, report, False)
-    _replay_convert(ctx, rec, k, report, True)
+    for tuples in (False, True):
+        try:
+            _replay_convert(ctx, rec, k, report, tuples)
+        except Exception as exc:   # noqa  (an exception that no expected-exception clause of the replay foresaw)
+            report("convert:%s:unexpected-exception:%s" % (rec["conv"]["op"], exc_name(exc)),
+                   {"hist": rec["hist"], "conv": dict((x, rec["conv"].get(x)) for x in ("op", "mode", "dup", "ranges", "elem")),
+                    "tuple_edges": tuples, "exception": repr(exc)[:300]})
 
 
 def _replay_convert(ctx, rec, k, report, tuples):
@@ -662,9 +667,12 @@ def _replay_convert(ctx, rec, k, report, tuples):
                 if elem in ("skip", "3d"):
                     # "If context.output.to_csv is False, the value is skipped"; more than 2 dimensions: not converted
                     val = (hist, {"output": {"to_csv": False}}) if elem == "skip" else (hist if k % 2 else (hist, {"some": 1}))
-                    with warnings.catch_warnings():
-                        warnings.simplefilter("ignore")
-                        out = list(O.ToCSV(separator=sep, duplicate_last_bin=conv["dup"]).run([val]))
+                    try:
+                        with warnings.catch_warnings():
+                            warnings.simplefilter("ignore")
+                            out = list(O.ToCSV(separator=sep, duplicate_last_bin=conv["dup"]).run([val]))
+                    except Exception as exc:   # noqa
+                        out = ["raised " + exc_name(exc)]
                     if len(out) != 1 or out[0] is not val:
                         report("to_csv:%s:not-passed-unchanged:%s" % (elem, where), dict(detail, observed=repr(out)[:300]))
                 elif elem == "ends":
